@@ -25,6 +25,9 @@ FLOOR = 10
 def _lists():
     from ..apitable import ragged
 
+    from .. import terms as _terms
+
+    _terms.INPUT_SYMS.update({"X_train", "X_test"})
     # ragged structure lists: every structure has its own number of environments
     Xtr = V("list", T("sym", "X_train"), orig=frozenset([("in", "X_train")]), extra=("comp", None, (Dim.of("St"), ragged("a"), Dim.of("F"))))
     Xte = V("list", T("sym", "X_test"), orig=frozenset([("in", "X_test")]), extra=("comp", None, (Dim.of("Sv"), ragged("b"), Dim.of("F"))))
